@@ -37,6 +37,8 @@ class RefResult:
         self.choosers = st.choosers
         self.chooser_failed = st.chooser_failed
         self.tmpl_reads = st.tmpl_reads
+        self.caller_reads = st.caller_reads
+        self.caller_tmpl_reads = st.caller_tmpl_reads
         # bodies the eager computation ran ONLY inside coalesce members that failed (nested failures counted once per level)
         self.failed_member_bodies = {b for b, c in st.failed_member_counts.items() if c >= st.touched.count(b)}
 
@@ -52,6 +54,9 @@ class _State:
         self.reads = {}       # key -> present?
         self.read_log = []    # (key, present?) in order
         self.tmpl_reads = {}  # keys read as template references -> present?
+        self.foreign_depth = 0       # >0 while evaluating under options other than the caller's (with / presets / Map assignment)
+        self.caller_reads = {}       # keys read from the caller's own dictionary -> present?
+        self.caller_tmpl_reads = {}  # ... of which as template references
         self.failed_member_counts = {}  # body -> times the eager computation ran it inside a coalesce member that failed
         self.choosers = set() # bodies executed while computing a value that selects a branch / assignment
         self.chooser_depth = 0
@@ -215,6 +220,9 @@ class Ref:
         v = dotted_get(o, key)
         self.st.reads[key] = v is not ABSENT
         self.st.tmpl_reads[key] = v is not ABSENT
+        if not self.st.foreign_depth:
+            self.st.caller_reads[key] = v is not ABSENT
+            self.st.caller_tmpl_reads[key] = v is not ABSENT
         self.st.read_log.append((key, v is not ABSENT))
         if v is ABSENT:
             raise RFail({("missing", key)})
@@ -251,6 +259,8 @@ class Ref:
         self.note_walk(key, o)
         raw = dotted_get(o, key)
         self.st.reads[key] = raw is not ABSENT
+        if not self.st.foreign_depth:
+            self.st.caller_reads[key] = raw is not ABSENT
         self.st.read_log.append((key, raw is not ABSENT))
         if raw is not ABSENT:
             if raw is None or raw is False or raw == 0 or raw == "" or raw == [] or raw == {}:
@@ -293,9 +303,27 @@ class Ref:
         refs = list(dict.fromkeys(find_refs(s)))
         names = list(params.keys())
         plain = [r for r in refs if not (r.startswith(":") and r.endswith(":") and r[1:-1] in params)]
-        vals = self.all_deep([(lambda pn=pn: self.ev(pn, o)) for pn in params.values()]
-                             + [(lambda r=r: self.get_ref(r, o)) for r in plain], o, 0)
-        pv = dict(zip(names, vals[:len(names)]))
+        def both():
+            pvals = self.all_of([(lambda pn=pn: self.ev(pn, o)) for pn in params.values()])
+            return pvals
+
+        # parameters and references are all needed: failures of either are possible failures
+        fails = set()
+        try:
+            pvals = both()
+        except RFail as f:
+            fails |= f.fails
+            pvals = [None] * len(params)
+        try:
+            rvals = self.all_deep([(lambda r=r: self.get_ref(r, o)) for r in plain], o, 0)
+        except RFail as f:
+            fails |= f.fails
+            rvals = [None] * len(plain)
+        if fails:
+            raise RFail(fails)
+        vals = list(pvals) + list(rvals)
+        # a parameter's string form is inserted as text: braces inside it are literal, never references
+        pv = {nm: str(v).replace("{", "\\{").replace("}", "\\}") for nm, v in zip(names, vals[:len(names)])}
         rv = dict(zip(plain, vals[len(names):]))
         if not refs:
             return s.replace("\\{", "{").replace("\\}", "}")
@@ -450,7 +478,11 @@ class Ref:
 
     def e_with(self, n, o):
         e = overlay(o, n["opts"]) if n["force"] else overlay(n["opts"], o)
-        return self.ev(n["body"], e)
+        self.st.foreign_depth += 1
+        try:
+            return self.ev(n["body"], e)
+        finally:
+            self.st.foreign_depth -= 1
 
     def e_cached(self, n, o):
         return self.ev(n["body"], o)
